@@ -109,5 +109,16 @@ func init() {
 		return fsmodel.Tree{f("a", 12, 5, t1+1), d("d", t1), f("d/b", 13, 6, t1+2), f("e", 14, 7, t1+3),
 			{Path: "p", Kind: fsmodel.Fifo, Perm: 0600, Mtime: t1 + 5}, f("z", 15, 9, t1+6)}
 	}
+	// content with long zero runs: at the end, in the middle, and nothing else
+	extraTrees["c7zeros"] = func() fsmodel.Tree {
+		tail := append(fsmodel.Content(21, 40960), make([]byte, 57344)...)
+		mid := append(append(fsmodel.Content(22, 5000), make([]byte, 8192)...), fsmodel.Content(23, 100)...)
+		t := fsmodel.Tree{f("allzero", 0, 0, t1), f("mid", 0, 0, t1+1), f("tail", 0, 0, t1+2)}
+		t[0].Data, t[1].Data, t[2].Data = make([]byte, 8192), mid, tail
+		return t
+	}
+	extraTrees["c7zeros-old"] = func() fsmodel.Tree {
+		return fsmodel.Tree{f("allzero", 31, 9000, t1+9), f("tail", 32, 100000, t1+9)}
+	}
 	extraTrees["one5"] = func() fsmodel.Tree { return fsmodel.Tree{f("a", 1, 5, t1)} }
 }
